@@ -107,6 +107,15 @@ def vector_obs(tier):
                     name = f'{kname}/init{"E" if i0 < 0 else i0}/' + '+'.join(f'{VN[op]}{a}' for op, a in sq)
                     obs.append(Ob(id=name, harness='C14/vector_ops.c', tus=T, defs=d, engine='bits', unwind=14, timeout=120 if tier == 'quick' else 900,
                                   clause=kname, stubs=('memmove_typed.c', 'sym_qsort.c'), object_bits=10))
+    # the real allocator's realloc(p, 0) frees p and returns NULL; CBMC's model does not. Histories that drain a vector to empty and go on
+    # are therefore also run natively (ASan) on sample values - the only place where a shrink-to-fit that forgets this can show
+    for kind, kname in ((0, 'dvector'), (1, 'uivector'), (2, 'ivector')):
+        for sq in ([(V_REMOVE, 0)], [(V_REMOVE, 0), (V_APPEND, 0)], [(V_REMOVE, 0), (V_EXTEND, 2)]):
+            d = {'HP_KIND': kind, 'HP_INIT': 1, 'HP_OP1': 0, 'HP_A1': 0, 'HP_OP2': 0, 'HP_A2': 0, 'HP_OP3': 0, 'HP_A3': 0}
+            for k, (op, a) in enumerate(sq, 1): d[f'HP_OP{k}'] = op; d[f'HP_A{k}'] = a
+            obs.append(Ob(id=f'native_allocator/{kname}/init1/' + '+'.join(f'{VN[op]}{a}' for op, a in sq), harness='C14/vector_ops.c', tus=T, defs=d, engine='native', timeout=120,
+                          clause=kname + ' drained to empty and used again, against the real allocator (ASan)', stubs=('memmove_typed.c', 'sym_qsort.c'),
+                          native_inputs=tuple(['i 0', 'd 1.5', 'i 0', 'd -2.25', 'i 7', 'd 3.5'] * 12)))
     return obs
 
 
